@@ -60,3 +60,20 @@ Example C04_hypotheses_satisfiable :
   inv_b sample_col = true /\ inv_b sample_col_one_chunk = true
   /\ abs sample_col = abs sample_col_one_chunk /\ chunks sample_col <> chunks sample_col_one_chunk.
 Proof. split; [reflexivity|]. split; [reflexivity|]. split; [reflexivity|]. vm_compute. discriminate. Qed.
+
+(* the arrays handed to reduce's user function (iter_field_lists) do not depend on the chunking; a conversion of a
+   whole chunk at once would *)
+From NP Require Import NumpyView Proofs_NumpyView.
+Theorem C04_iter_field_lists_layout_independent : forall p q nm,
+  wf_b p = true -> chunks p <> [] -> NoDup (map fst (ctype p)) ->
+  wf_b q = true -> chunks q <> [] -> abs p = abs q ->
+  has_name (map fst (ctype p)) nm = true ->
+  m_iter_field_lists p nm = m_iter_field_lists q nm.
+Proof. exact iter_field_lists_layout_independent. Qed.
+Print Assumptions C04_iter_field_lists_layout_independent.
+Theorem C04_chunkwise_conversion_refuted :
+  inv_b cx_one = true /\ inv_b cx_two = true /\ abs cx_one = abs cx_two
+  /\ m_iter_chunkwise cx_one "a" <> m_iter_chunkwise cx_two "a"
+  /\ m_iter_field_lists cx_one "a" = m_iter_field_lists cx_two "a".
+Proof. exact chunkwise_conversion_refuted. Qed.
+Print Assumptions C04_chunkwise_conversion_refuted.
